@@ -109,7 +109,8 @@ MUTANTS = {
     ],
     "u_resp": [
         ("src/response.rs", "        // sending the body\n        if !do_not_send_body {", "        // sending the body\n        writer.write(b\"\\r\\n\")?;\n        if !do_not_send_body {"),
-        ("src/response.rs", "                    let mut writer = Encoder::new(writer);\n                    io::copy(&mut reader, &mut writer)?;", "                    let mut writer = Encoder::new(writer);\n                    if data_length != Some(0) {\n                        io::copy(&mut reader, &mut writer)?;\n                    }"),
+        # (removed: `if data_length != Some(0) { io::copy(..) }` in the chunked arm -- a body DECLARED empty need not be polled, C04 presumes
+        #  declared lengths to be correct; the obligation that killed it was a false alarm on the corrected variant of seed C04d)
         ("src/response.rs", "                100..=199 | 204 | 304 => true,", "                100..=199 | 204 => true,"),
         ("src/response.rs", "            self.headers.insert(0, build_date_header());", "            self.headers.push(build_date_header());"),
         ("src/response.rs", "            || header.field.equiv(\"Transfer-Encoding\")", ""),
